@@ -113,7 +113,18 @@ func runTrace(t *testing.T, drvPath string, infos []bpfnative.MapInfo, sp spec) 
 		core.Field(mgr, f).Set(reflect.ValueOf(km))
 	}
 	sub := net.IPv4(10, 77, 3, 9).To4()
-	if sp.Prev {
+	if sp.Prev && sp.Policy {
+		// the plan itself is redefined: the same policy name is applied before and after
+		pm.AddPolicy(&radius.QoSPolicy{Name: "p", DownloadBPS: sp.PrevRate, UploadBPS: sp.PrevRate, BurstSize: 3000, Priority: 1})
+		if err := mgr.SetSubscriberPolicy(sub, "p"); err != nil {
+			t.Fatal(err)
+		}
+		if sp.Remove {
+			if err := mgr.RemoveSubscriberQoS(sub); err != nil {
+				t.Fatal(err)
+			}
+		}
+	} else if sp.Prev {
 		if err := mgr.SetSubscriberQoS(&q.SubscriberQoS{IP: sub, DownloadBPS: sp.PrevRate, UploadBPS: sp.PrevRate, BurstBytes: 3000, Priority: 1}); err != nil {
 			t.Fatal(err)
 		}
@@ -272,12 +283,14 @@ func specs(tier string, seed int64) []spec {
 		switch i - (len(rates) + 4 + len(driftRates)) { // plan changes to and from unlimited
 		case 0: // limited -> unlimited, download; 40 full-size packets exceed the old 3000-byte bucket at once
 			sp.Rate, sp.Prev, sp.PrevRate, sp.Remove, sp.Dir, sp.Pattern = 0, true, 2_000_000, false, "egress", "backlog-coarse"
+			sp.Policy = false
 		case 1: // limited -> unlimited, upload (the manager gives the old bucket 64 KB: more packets needed)
 			sp.Rate, sp.Prev, sp.PrevRate, sp.Remove, sp.Dir, sp.Pattern, sp.N = 0, true, 400_000, false, "ingress", "backlog-coarse", 120
 		case 2: // limited, removed, unlimited
 			sp.Rate, sp.Prev, sp.PrevRate, sp.Remove, sp.Dir, sp.Pattern = 0, true, 2_000_000, true, "egress", "backlog-coarse"
-		case 3: // unlimited -> limited
+		case 3: // unlimited -> limited, by redefining the named policy the subscriber already has
 			sp.Rate, sp.Prev, sp.PrevRate, sp.Remove, sp.Dir, sp.Pattern, sp.Burst = 10_000_000, true, 0, false, "egress", "backlog-fine", 3000
+			sp.Policy = true
 		}
 		if sp.Dir == "ingress" {
 			sp.Burst = 0 // the manager computes the ingress burst itself
